@@ -21,6 +21,7 @@ def run(run, model):
     run.do(meta.provenance_rule, model, "C16.base-first", "__postconditions__", "postconditions")
     run.do(meta.provenance_rule, model, "C16.base-first", "__postcondition_snapshots__", "snapshots")
     run.do(c04.weaken_table, model, "C16.collapse")
+    run.do(meta.per_member_state, model, "C16.per-member-state")
     run.do(c04.invariant_provenance, model, "C16.base-first", "C16.inv-own")
     for role, ck in gates.checkers(model).items():
         h = loops.helper_of(model, ck, "PRE")
@@ -34,6 +35,11 @@ def run(run, model):
     run.do(c18.find_rule, model, "C16.single-checker")
     # which constructor carries the "after construction" phase
     run.do(inv.install, model, "C16.install", "C16.ctor-choice")
+    # each invariant is registered once, in the list of the event it is meant for
+    from . import c17, rec
+    run.do(c17.invariant_decorator_table, model, "C16.decorator-lists")
+    # the one re-evaluation of a violated condition evaluates each operand once
+    run.do(rec.chain_and_lazy_compare, model, "C16.reeval-chain", "C16.reeval-chain-once")
     run.minimum("C16.phases", 2)
     run.minimum("C16.inv-phases", 2)
     run.minimum("C16.append", 3)
